@@ -18,6 +18,9 @@ THEOREMS = ["Names.resolve_direct_import", "Names.resolve_module_alias", "Names.
             "Imports.resolve_sound_partial", "Imports.resolve_from_definer", "Imports.resolve_via_module_alias",
             "Imports.resolve_sound_unbound_counterexample", "Imports.resolve_order_independent", "Imports.wf_run_clean",
             "Imports.resolve_sound_bases_counterexample", "Imports.resolve_sound_nobases",
+            # inherited members (layer PdProps/C04Inh.lean: expand_soundI, class_bind_same, mro_member_class, pyDenotes_jI):
+            # soundness without pyOwn for the sub-class classImportsUnique
+            "Imports.resolve_sound_inherited", "Imports.resolve_order_independent_inherited",
             # lemmas of PdProps/C04.lean they rest on (the layers below are PdProps/C04Base.lean and C04Clean.lean)
             "Imports.alias_of_stmt", "Imports.def_registered", "Imports.walk_path"]
 RULE = ("generated acyclic multi-package projects (globally unique definition names, one binding per name per scope; plain, "
@@ -40,12 +43,17 @@ PARTIAL = {"Imports.resolve_sound": "soundness is a theorem (Imports.resolve_sou
                                     "each name bound once per scope - a star import counted as binding every public name of its target "
                                     "and its __all__ -, root module names reserved, no definition name containing a space, base "
                                     "expressions are names) PLUS (1) the restriction noReexport (no __all__ re-export moves: oracle + C07) "
-                                    "and (2) for names whose class steps stay in the classes' own namespaces (PyImp.pyOwn; base classes "
-                                    "are allowed in the project). For names that go through an INHERITED member the statement was false "
-                                    "before /repo d230b6e (Imports.resolve_sound_bases_counterexample, historical, over the old lookup "
-                                    "expandLoopOld; finding unsound:inherited-attribute:base-import-skipped, fixed) and is NOT proved on "
-                                    "the current tree (needs soundness of base-class resolution at visit time); such names are judged by "
-                                    "the oracle and by the two correspondence streams. The clean-run side "
+                                    "and (2) EITHER for names whose class steps stay in the classes' own namespaces (PyImp.pyOwn; "
+                                    "Imports.resolve_sound_partial) OR - INHERITED members included, no pyOwn - for the decidable "
+                                    "sub-class classImportsUnique of WF (Imports.resolve_sound_inherited: a name bound by an import inside "
+                                    "a class body is bound by imports of that one class body only and is not the name of a definition or "
+                                    "non-root module; base classes written in any way, multiple inheritance, imports in class bodies "
+                                    "allowed). Left: inherited names in projects where two classes bind the same name, one of them by an "
+                                    "import (there the ORDER of the MRO decides: needs soundness of base-class resolution + C05 "
+                                    "pd_eq_cpython); the statement was false there before /repo d230b6e "
+                                    "(Imports.resolve_sound_bases_counterexample, historical, over the old lookup expandLoopOld; finding "
+                                    "unsound:inherited-attribute:base-import-skipped, fixed); such names are judged by the oracle and by "
+                                    "the two correspondence streams. The clean-run side "
                                     "condition is discharged (Imports.wf_run_clean). Outside WF the direct differential oracle decides.",
            "Imports.resolve_sound_unbound": "without 'Python binds the name' the implication is false (star import of a package's "
                                             "not-yet-imported submodule: Imports.resolve_sound_unbound_counterexample) - outside the "
@@ -316,8 +324,11 @@ def run_abstract(ctx: Ctx, gens, pyres) -> None:
                 continue
             ctx.count("wf:" + ("yes" if flags["wf"] == "1" else "no"))
             for k, v in flags.items():
-                if k != "wf" and v == "0":
+                if k not in ("wf", "classimports") and v == "0":
                     ctx.count("wf:fails:" + k)
+            if flags["wf"] == "1":
+                # the extra hypothesis of Imports.resolve_sound_inherited (not a component of WF)
+                ctx.count("wf:classImportsUnique:" + ("yes" if flags.get("classimports") == "1" else "no"))
             if flags["wf"] == "1" and (not clean or pyerr):
                 ctx.disagree("wf-clean", {"units": src}, "WF", "analysis not clean" if not clean else "python: " + str(pyerr))
 
